@@ -3,11 +3,13 @@ module verif/engine
 go 1.23
 
 require (
+	github.com/spaolacci/murmur3 v1.1.0
 	golang.org/x/crypto v0.0.0-20210921155107-089bfa567519
 	golang.org/x/tools v0.29.0
 )
 
 require (
+	github.com/spaolacci/murmur3 v1.1.0
 	golang.org/x/mod v0.22.0 // indirect
 	golang.org/x/sync v0.10.0 // indirect
 	golang.org/x/sys v0.29.0 // indirect
